@@ -186,6 +186,13 @@ def judge_lock(ctx, rng, j):
         bad = bytearray(sig)
         bad[rng.randrange(64)] ^= 1 << rng.randrange(8)
         variants = [('sigbit', isa.push(bytes(bad)), fields)]
+        # an item that is not 64 / 65 bytes long is no signature, whatever
+        # its first 64 and its last byte are
+        variants.append(('sig-stretched', isa.push(
+            sig[:64] + rbytes(rng, rng.randrange(1, 4)) + bytes([f])),
+            fields))
+        variants.append(('sig-short', isa.push(sig[:rng.choice((63, 32))]),
+                         fields))
         cov = sigmsg.covered(fields, f)
         if cov:
             k = rng.choice(cov)
